@@ -85,6 +85,26 @@ UNITS = {
                          "qwa_func", "qwa_arg", "qwa_sync", "qwa_ret", "realrets"],
                  skip_calls=["qt_malloc", "qt_sinc_create", "memset"],
                  oracles={"qthread_num_workers": []}),
+            # queue-loop cursors: the arithmetic between the shared accesses; the atomic operation itself is an oracle
+            dict(name="qqloop_get_iterations_chunked", as_="qq_chunked", stop=r"^return retval",
+                 outputs=["range_startat", "range_stopat", "retval"],
+                 oracles={"__sync_fetch_and_add_8": ("fetch_add", [1]), "__sync_fetch_and_add": ("fetch_add", [1]),
+                          "qthread_incr_xx": ("fetch_add", [1])}),
+            dict(name="qqloop_get_iterations_guided", as_="qq_guided_claim",
+                 inside=[r"^if \(ret != ret2\)", r"^while \(ret < iq->stop\)"], start=r"^iterations\s*=", stop=r"^if \(ret == ret2\)",
+                 outputs=["iterations", "ret2"], oracles={"__sync_val_compare_and_swap_8": ("cas", [1, 2]), "__sync_val_compare_and_swap": ("cas", [1, 2])}),
+            dict(name="qqloop_get_iterations_factored", as_="qq_factored_phase",
+                 inside=[r"^while \(ret < iq->stop && ret != ret2\)", r"^while \(ret >= phase"],
+                 outputs=["phase"], oracles={"__sync_val_compare_and_swap_8": ("cas", [1, 2]), "__sync_val_compare_and_swap": ("cas", [1, 2])}),
+            dict(name="qqloop_get_iterations_factored", as_="qq_factored_claim",
+                 inside=[r"^while \(ret < iq->stop && ret != ret2\)"], start=r"^iterations\s*=",
+                 outputs=["iterations", "ret2"], oracles={"__sync_val_compare_and_swap_8": ("cas", [1, 2]), "__sync_val_compare_and_swap": ("cas", [1, 2])}),
+            dict(name="qqloop_get_iterations_timed", as_="qq_timed_slow",
+                 inside=[r"^while \(localstart < localstop\)", r"^if \(loop_time >="], outputs=["dynamicBlock"]),
+            dict(name="qqloop_get_iterations_timed", as_="qq_timed_claim",
+                 inside=[r"^while \(localstart < localstop\)"], start=r"^if \(\(localstart \+ dynamicBlock\) > localstop\)",
+                 stop=r"^if \(tmp == localstart\)", outputs=["dynamicBlock", "tmp"],
+                 oracles={"__sync_val_compare_and_swap_8": ("cas", [1, 2]), "__sync_val_compare_and_swap": ("cas", [1, 2])}),
         ]),
     "Int60": dict(
         file="@harness/gen_int60.c",
@@ -696,10 +716,13 @@ class Kernel:
         orc = self.spec.get("oracles", {})
         if name in orc:
             idxs = orc[name]
+            oname = name
+            if isinstance(idxs, tuple):
+                oname, idxs = idxs
             if not ty.scalar():
                 raise CTransError("%s: oracle call returns a non-scalar" % self.where(n))
             coqty = " -> ".join(["Z"] * (len(idxs) + 1))
-            v = self.declare(("o", name), name, ty, coqty=coqty, cat="oracle")
+            v = self.declare(("o", name), oname, ty, coqty=coqty, cat="oracle")
             if v.key not in self.inputs:
                 self.inputs.append(v.key)
             if v.key not in env["assigned"]:
@@ -1031,6 +1054,21 @@ class Kernel:
             raise CTransError("%s: expression statement outside the subset" % self.where(n0))
         lhs = inner(n)[0]
         lty = ctype(lhs)
+        if is_asg:
+            r = inner(n)[1]
+            r0 = r
+            while r0.get("kind") in ("ParenExpr", "ImplicitCastExpr") or (r0.get("kind") == "CStyleCastExpr" and r0.get("castKind") in ("NoOp", "IntegralCast")):
+                r0 = inner(r0)[0]
+            if r0.get("kind") == "BinaryOperator" and r0.get("opcode") == "=":
+                # a = (b = e)  is  b = e; a = b   (the value of an assignment is the value of its left operand)
+                def wrapcasts(x, leaf):
+                    if x is r0:
+                        return leaf
+                    return dict(x, inner=[wrapcasts(inner(x)[0], leaf)])
+                load = {"kind": "ImplicitCastExpr", "castKind": "LValueToRValue", "type": inner(r0)[0].get("type"), "inner": [inner(r0)[0]],
+                        "range": r0.get("range")}
+                outer = dict(n, inner=[lhs, wrapcasts(r, load)])
+                return self.tr_exprstmt(r0, env, ctx, lambda e2: self.tr_exprstmt(outer, e2, ctx, cont))
         # untracked targets
         try:
             probe_key = self.lvalue_noexpr(lhs)
@@ -1406,6 +1444,36 @@ class Kernel:
                 env["assigned"] = env["assigned"] | {v.key}
                 env["scope"] = env["scope"] | {v.key}
         stmts = inner(body[0])
+        # every local of the function that is not declared inside the slice is visible with an unknown value
+        def all_decls(n):
+            if n.get("kind") == "VarDecl":
+                yield n
+            for c in inner(n):
+                for x in all_decls(c):
+                    yield x
+        for dcl in all_decls(body[0]):
+            if dcl.get("storageClass") == "static":
+                self.static_locals.add(("v", dcl["id"]))
+            else:
+                self.pre_locals.add(("v", dcl["id"]))
+        for pat in self.spec.get("inside", []):
+            texts = [" ".join(self.text_of(s_).split()) for s_ in stmts]
+            hits = [i for i, t in enumerate(texts) if re.search(pat, t)]
+            if len(hits) != 1:
+                raise CTransError("%s: inside pattern %r matches %d statements" % (self.cname, pat, len(hits)))
+            st = stmts[hits[0]]
+            kd = st.get("kind")
+            sub = [c for c in st.get("inner", []) if isinstance(c, dict) and c]
+            if kd == "IfStmt":
+                nb = sub[1]
+            elif kd in ("WhileStmt", "ForStmt"):
+                nb = sub[-1]
+            elif kd == "CompoundStmt":
+                nb = st
+            else:
+                raise CTransError("%s: inside pattern %r selects a %s" % (self.cname, pat, kd))
+            self.skipped.append("slice: inside `%s`" % texts[hits[0]][:70])
+            stmts = inner(nb) if nb.get("kind") == "CompoundStmt" else [nb]
         start, stop = self.spec.get("start"), self.spec.get("stop")
         if start or stop:
             texts = [" ".join(self.text_of(s).split()) for s in stmts]
